@@ -1,3 +1,5 @@
+#[cfg(feature = "verif")]
+mod verif;
 use hashbrown::HashMap;
 
 use rowan::TextRange;
